@@ -25,7 +25,7 @@ RULE = ("each run draws a wrapped probe element (fill/compute with reset, fill/r
         "consumed) inserted at drawn positions (swept in the thorough tier) and a final request(); "
         "every call is executed under a line-count watchdog; non-trivial = at least one complete "
         "block and, for push histories, at least one request() off a block boundary or a fill "
-        "after a complete block; distinct = distinct abstracted event-kind sequences"
+        "after a complete block; distinct = distinct abstracted event-kind sequences."
         " Since the seeded rounds also: wrapped elements that signal LenaStopFill themselves,"
         " elements with both interfaces, run elements with a reset method (asked for or not) and"
         " run elements that yield nothing for some blocks, bare None values in the flow, Reverse"
